@@ -66,6 +66,8 @@ def judge(ctx, case, res, mout):
              any(len(t[1]) >= 2 and 'n' in t[1] for t in its) and any(not t[1] for t in its), sample=small if case['n'] <= 4 else None)
     ctx.count('generators', len(its))
     ctx.count('empty_generators', sum(1 for t in its if not t[1]))
+    if res.get('retried'):
+        ctx.count('scenarios_rerun_after_a_timeout')
     if res.get('timeout'):
         ctx.fail('stream-deadlock', 'the stream did not finish', small)
         return
